@@ -16,6 +16,7 @@ MC_Ops2 == {"o1", "o2"}
 MC_Ops4 == {"o1", "o2", "o3", "o4"}
 MC_Both == {"rpc", "pub"}
 MC_Seed == {"rpc"}
+MC_Faulty == {"rpc", "pub", "err"}
 MC_Async == {FALSE}
 MC_SyncAsync == {TRUE, FALSE}
 (* behaviour emission for replay: every completed behaviour is printed once       *)
